@@ -1001,6 +1001,13 @@ func stress(n *consensus.RaftNode, r *xp.Req) (ops, panics int) {
 		f()
 		atomic.AddInt64(&nops, 1)
 	}
+	// Args[0] = "pad=N": events carry N extra bytes (hashing a big event keeps a query inside
+	// the node's entry points for milliseconds instead of microseconds)
+	pad := 0
+	if len(r.Args) > 0 {
+		fmt.Sscanf(r.Args[0], "pad=%d", &pad)
+	}
+	padding := bytes.Repeat([]byte{'x'}, pad)
 	for a := 0; a < int(r.A); a++ {
 		wg.Add(1)
 		go func(a int) {
@@ -1008,7 +1015,7 @@ func stress(n *consensus.RaftNode, r *xp.Req) (ops, panics int) {
 			for i := 0; i < int(r.B); i++ {
 				var bulk [][]byte
 				for j := 0; j < int(r.C); j++ {
-					bulk = append(bulk, []byte(fmt.Sprintf("s-%d-%d-%d", a, i, j)))
+					bulk = append(bulk, append([]byte(fmt.Sprintf("s-%d-%d-%d", a, i, j)), padding...))
 				}
 				guard(func() {
 					if _, err := n.AddBulk(bulk); err == nil {
